@@ -162,7 +162,7 @@ def stepLine1 (w : World) (toks : List String) : World × String :=
       let added := ra.1
       let pm' := added.foldl (fun p kv => (p.set kv.1 kv.2).1) w.pm
       let w' := { w with pm := pm', am := ra.1 }
-      (w', s!"{match ra.2 with | some n => s!"ok {n}" | none => "err"} | {dumpM w'}")
+      (w', s!"{match ra.2 with | some n => s!"ok {n}" | none => "err 0"} | {dumpM w'}")
     | none => (w, "bad-op")
   -- methods with a nil-receiver guard called on `(*OrderedMap)(nil)`
   | ["mnil", "foreach"] => (w, "true")
@@ -270,7 +270,17 @@ def stepLine1 (w : World) (toks : List String) : World × String :=
     match r.toNat?, unhex h with
     | some r, some b =>
       let x := decode decU16 decVoid (w.getSet r) b
-      (w.putSet r x.1, s!"{match x.2 with | some n => s!"ok {n}" | none => "err"} | {showSet x.1}")
+      (w.putSet r x.1, s!"{match x.2 with | some n => s!"ok {n}" | none => "err 0"} | {showSet x.1}")
+    | _, _ => (w, "bad-op")
+  -- a set of another element width (`u8`, `i8`, `bool` = one byte per entry … `u64`): Encode, then Decode into a fresh set
+  | ["wenc", t, l] =>
+    let width : Option Nat := match t with
+      | "u8" => some 1 | "i8" => some 1 | "bool" => some 1 | "u16" => some 2 | "u32" => some 4 | "u64" => some 8 | _ => none
+    match width, parseList l with
+    | some wd, some l =>
+      let b := encode (encLE wd) encVoid (newSet l)
+      let r := decode (decLE wd) decVoid [] b
+      (w, s!"{hex b} | {match r.2 with | some n => s!"ok {n}" | none => "err 0"} {showSet r.1}")
     | _, _ => (w, "bad-op")
   -- ordered maps with pointer / slice / map values
   | "codec" :: t :: hs =>
@@ -304,7 +314,7 @@ def stepLine1 (w : World) (toks : List String) : World × String :=
     | some t =>
       let x := decode decU16 (decTable (w.tables.getD t [])) (w.tmaps.getD t []) (w.tlast.getD t [])
       ({ w with tmaps := w.tmaps.set t x.1 },
-        s!"{match x.2 with | some n => s!"ok {n}" | none => "err"} | {showKVs x.1}")
+        s!"{match x.2 with | some n => s!"ok {n}" | none => "err 0"} | {showKVs x.1}")
     | none => (w, "bad-op")
   -- SetArithmetic
   | ["arnew"] => ({ w with counts := fun _ => 0 }, "ok")
